@@ -810,34 +810,33 @@ class ChunkedPlateCarreeSampler(object):
         """
         from .image import Image
 
-        chunk_lon_min, chunk_lon_max, chunk_lat_min, chunk_lat_max = self._chunk_bounds(
-            ichunk
-        )
+        cx, cy, _cw, _ch = self._image.chunk_spec(ichunk)
         data = self._image.chunk_data(ichunk)
         data_img = Image.from_array(data)
         buffer = data_img.mode.make_maskable_buffer(256, 256)
         biy, bix = np.indices((256, 256))
 
         ny, nx = data.shape[:2]
-        dx = nx / (
-            chunk_lon_max - chunk_lon_min
-        )  # pixels per radian in the X direction
-        dy = ny / (chunk_lat_max - chunk_lat_min)  # ditto, for the Y direction
-        lon0 = (
-            chunk_lon_min + 0.5 / dx
-        )  # longitudes of the centers of the pixels with ix = 0
-        lat0 = (
-            chunk_lat_max - 0.5 / dy
-        )  # latitudes of the centers of the pixels with iy = 0
+        gny, gnx = self._image.shape[:2]
+        sx = self.sx
+        sy = self.sy
 
         def plate_carree_planet_sampler(lon, lat):
-            lon = (lon + np.pi) % TWOPI - np.pi  # ensure in range [-pi, pi]
-            ix = (lon - lon0) * dx
-            ix = np.round(ix).astype(int)
+            # Compute pixel indices in the *global* image, in the same way for
+            # every chunk, and only then shift them into this chunk. Each point
+            # is then claimed by exactly one chunk. Rounding per-chunk
+            # coordinates instead leaves points that sit on a chunk boundary
+            # (e.g. TOAST pixel centers with lon = -pi/4) unclaimed by both
+            # neighbors, due to floating-point roundoff.
+            lon = (lon + np.pi) % TWOPI  # in range [0, 2pi)
+            ix = np.floor(lon / sx).astype(int)
+            np.clip(ix, 0, gnx - 1, out=ix)
+            ix -= cx
             ok = (ix >= 0) & (ix < nx)
 
-            iy = (lat0 - lat) * dy  # *assume* in range [-pi/2, pi/2]
-            iy = np.round(iy).astype(int)
+            iy = np.floor((HALFPI - lat) / sy).astype(int)  # *assume* lat in [-pi/2, pi/2]
+            np.clip(iy, 0, gny - 1, out=iy)
+            iy -= cy
             ok &= (iy >= 0) & (iy < ny)
 
             data_img.fill_into_maskable_buffer(buffer, iy[ok], ix[ok], biy[ok], bix[ok])
